@@ -584,10 +584,12 @@ func state1(s *scanner, c byte) state {
 // After reading `0` during a number.
 func state0(s *scanner, c byte) state {
 	if c == '.' {
+		s.unfinishedLiteral = true
 		s.step = stateDot
 		return scanContinue
 	}
 	if c == 'e' || c == 'E' {
+		s.unfinishedLiteral = true
 		s.step = stateE
 		return scanContinue
 	}
@@ -598,6 +600,7 @@ func state0(s *scanner, c byte) state {
 // `1.`.
 func stateDot(s *scanner, c byte) state {
 	if bytes.IsDigit(c) {
+		s.unfinishedLiteral = false
 		s.step = stateDot0
 		return scanContinue
 	}
@@ -611,6 +614,7 @@ func stateDot0(s *scanner, c byte) state {
 		return scanContinue
 	}
 	if c == 'e' || c == 'E' {
+		s.unfinishedLiteral = true
 		s.step = stateE
 		return scanContinue
 	}
@@ -631,6 +635,7 @@ func stateE(s *scanner, c byte) state {
 // `314e-` or `0.314e+`.
 func stateESign(s *scanner, c byte) state {
 	if bytes.IsDigit(c) {
+		s.unfinishedLiteral = false
 		s.step = stateE0
 		return scanContinue
 	}
